@@ -6,7 +6,7 @@ from vlib import hx, unhx, case_line, show
 THEOREMS = ["C02_tables", "C02_strings_frame", "C02_bools_frame", "C02_all_strings_frame", "C02_pinned_refuted", "C02_volume_pinned_refuted",
             "C02_container_string_key_frame", "C02_container_list_key_frame", "C02_container_bool_key_frame", "C02_frame_example",
             "C02_image_string_key_frame", "C02_image_bool_key_frame", "C02_network_string_key_frame", "C02_network_bool_key_frame",
-            "C02_network_list_key_frame", "C02_pod_string_key_frame", "C02_pod_list_key_frame", "C02_pod_frame_example", "C02_network_frame_example", "C02_priority_table", "C02_container_command_shape", "C02_image_command_shape", "C02_network_command_shape", "C02_pod_command_shape"]
+            "C02_network_list_key_frame", "C02_pod_string_key_frame", "C02_pod_list_key_frame", "C02_pod_frame_example", "C02_network_frame_example", "C02_priority_table", "C02_container_command_shape", "C02_image_command_shape", "C02_network_command_shape", "C02_pod_command_shape", "C02_kube_command_shape", "C02_build_command_shape", "C02_volume_command_shape"]
 
 VALUES = ["v", "a b", "x=y", "p:q", "c,d", "%n", "é", "it's", 'say "hi"', "back\\slash", "tab\there", "-dash", "$X", "a  b", "\U0001F600", "UPPER", "[br]", "#h"]
 SUBCOMMAND = {"container": ["run"], "pod": ["pod", "create"], "volume": ["volume", "create"], "network": ["network", "create"], "kube": ["kube", "play"],
@@ -125,6 +125,10 @@ def gen_key_case(rng, typ, key):
         return ["AutoUpdate=registry"], ["--label", "io.containers.autoupdate=registry"]
     if key == "EnvironmentFile":
         return ["EnvironmentFile=/etc/e1 /etc/e2"], ["--env-file", "/etc/e1", "--env-file", "/etc/e2"]
+    if key == "KubeDownForce":
+        # a boolean like the others, but its option belongs to the `podman kube down` command (ExecStopPost=)
+        b = rng.choice(gen_conv.BOOLS)
+        return ["KubeDownForce=%s" % b], (["--force"] if b in ("yes", "true", "1", "on") else ["--force=false"])
     if key == "Rootfs":
         return None
     return None
@@ -206,7 +210,7 @@ def run(ctx):
         if not ra["ok"] or not rb["ok"]:
             ctx.failures.append({"op": "convert", "type": typ, "key": key, "case_hex": cases[2 * i], "what": "unit with documented key %s=%s does not convert: %s" % (key, lines, ra.get("err") or rb.get("err")), "class": None})
             continue
-        ek = EXEC_KEY.get(typ, "ExecStart")
+        ek = "ExecStopPost" if key == "KubeDownForce" else EXEC_KEY.get(typ, "ExecStart")
         a = [v for n, es in ra["sections"] if n == "Service" for k, v in es if k == ek][0]
         b = [v for n, es in rb["sections"] if n == "Service" for k, v in es if k == ek][0]
         if a is None or b is None:
@@ -228,6 +232,8 @@ def run(ctx):
             ctx.failures.append({"op": "convert", "type": typ, "key": key, "case_hex": cases[2 * i],
                                  "what": "adding %s changed more than its own option group: without the group %s, without the key %s" % (lines, rest, b), "class": None})
             continue
+        if key == "KubeDownForce":
+            continue          # the positional clause below is about the main command
         # positional clause
         sub = SUBCOMMAND[typ]
         try:
